@@ -257,7 +257,7 @@ def eval_static(case):
     n = 0
     for name, cls in classes:
         n += 1
-        got = set(cls.yaml_constructors) - {"!c04-c", "!app-d"}
+        got = set(cls.yaml_constructors) - {"!c04-c", "!app-d", "!c04-base"}
         if got != want:
             failures.append(Failure("static:constructor-table:%s" % name, "extra=%r missing=%r" % (
                 sorted(map(str, got - want)), sorted(map(str, want - got)))))
@@ -273,11 +273,88 @@ def eval_static(case):
     return Eval(failures, ["static:tables"], nontrivial=True, ident="static", evals=n, sample="effective constructor tables")
 
 
+
+# ---------------------------------------------------------------------------------------------------------------------------
+# 'names' arm: a python/name tag can only hand out the existing attribute itself
+
+def enum_names(shard, nshards, tier):
+    k = 0
+    for name in safety.NAMES:
+        for shape in ("root", "item", "value", "aliased"):
+            for as_bytes in (False, True):
+                if k % nshards == shard:
+                    yield (name, shape, as_bytes)
+                k += 1
+
+
+def eval_name(case):
+    """Reference: for 'module.attr' with the module already imported and the attribute in the module's own dictionary the only
+    permitted result is that very object (identity), and nothing recorded by the canaries; every other name is left to the
+    generated arms (rejection, no import)."""
+    import yaml
+    name, shape, as_bytes = case
+    c01._warm()
+    _warm_full()
+    import canary_imported
+    cl = {"name-identity"}
+    tagtext = "!!python/name:%s ''" % name
+    text = {"root": "%s\n", "item": "- a\n- %s\n", "value": "k: %s\n", "aliased": "- &n %s\n- *n\n"}[shape] % tagtext
+    pick = {"root": lambda r: [r], "item": lambda r: [r[1]], "value": lambda r: [r["k"]], "aliased": lambda r: [r[0], r[1]]}[shape]
+    mod, _, attr = name.rpartition(".")
+    expected = None
+    have = False
+    if any(c in name for c in " %") or not attr:
+        pass
+    elif (mod or "builtins") in sys.modules:
+        d = getattr(sys.modules[mod or "builtins"], "__dict__", {})
+        if attr in d:
+            expected, have = d[attr], True
+    if name == "canary_imported.NATIVE_GEN":
+        return Eval([], ["name-identity", "name-identity:generator-object (listed finding, judged by the docs arm)"], nontrivial=False,
+                    ident=repr(case), evals=0)
+    failures = []
+    evals = 0
+    for lname, L in [("FullLoader", yaml.FullLoader)] + ([("CFullLoader", yaml.CFullLoader)] if have_c() else []) + [("full_load", None)]:
+        data = text.encode("utf-8") if as_bytes else text
+        canary_imported.reset()
+        del canary_imported.CALLS[:]
+        before = set(sys.modules)
+        evals += 1
+        try:
+            result = yaml.full_load(data) if L is None else yaml.load(data, Loader=L)
+        except yaml.YAMLError:
+            if have:
+                # (an existing attribute of an imported module may still be refused - the property only says what may be built)
+                cl.add("name-identity:existing-attribute-refused")
+            continue
+        finally:
+            calls = list(canary_imported.CALLS)
+            del canary_imported.CALLS[:]
+            new_modules = sorted(set(sys.modules) - before)
+        if calls:
+            failures.append(Failure("name:canary-recorded:%s" % lname, "%r while loading %r" % (calls[:4], text)))
+        if new_modules:
+            failures.append(Failure("name:module-imported:%s" % lname, "%r while loading %r" % (new_modules[:4], text)))
+        if not have:
+            failures.append(Failure("name:unresolvable-name-loaded:%s" % lname, "%r gave %.80r" % (text, result)))
+            continue
+        cl.add("name-identity:existing-attribute")
+        if isinstance(expected, (list, dict, set, bytearray)):
+            cl.add("name-identity:mutable-container")
+        for got in pick(result):
+            if got is not expected:
+                failures.append(Failure("name:result-is-not-the-existing-attribute:%s" % lname,
+                                        "%r gave %.80r (type %s), the attribute is %.80r" % (text, got, type(got).__name__, expected)))
+                break
+    return Eval(failures, sorted(cl), nontrivial=have, ident=repr(case), evals=evals, sample=text)
+
+
 def arms(tier):
     return [
         Arm("docs", eval_doc, doc_cases, quick=10000, thorough=300000),
         Arm("preloaded", eval_preloaded, preload_cases, quick=4000, thorough=100000),
         Arm("static", eval_static, enum=enum_static, exhaustive=True, shards=1),
+        Arm("names", eval_name, enum=enum_names, exhaustive=True),
     ]
 
 
